@@ -89,7 +89,7 @@ def coq_make(targets=None, timeout=1500):
 
 def build_driver():
     """extract the model and compile the OCaml driver; cached on the sources"""
-    srcs = [os.path.join(COQ, f) for f in ('Base.v', 'Wire.v', 'Schema.v', 'IO.v', 'Codec.v', 'Spec.v', 'Fungible.v', 'Calls.v', 'SipHash.v', 'Endian.v', 'Extract.v')
+    srcs = [os.path.join(COQ, f) for f in ('Base.v', 'Wire.v', 'Schema.v', 'IO.v', 'Codec.v', 'Spec.v', 'Fungible.v', 'Calls.v', 'SipHash.v', 'Endian.v', 'Objects.v', 'Extract.v')
             if os.path.exists(os.path.join(COQ, f))]
     srcs += [os.path.join(COQ, f) for f in os.listdir(COQ) if f.endswith('Model.v') or f.endswith('Defs.v')]
     srcs.append(os.path.join(VERIF, 'tools', 'driver.ml'))
